@@ -58,6 +58,30 @@ def flood_scripts(group, outdir, n):
         vflib.write_ndjson(os.path.join(outdir, "beh_%s_%d.ndjson" % (group, i)), lines)
 
 
+WRONG_LENGTHS = [0, 1, 2, 7, 8, 9, 32, 63, 65, 66, 127, 128, 129, 1023, 1024, 2047, 2048, 2049, 4096]
+
+
+def length_scripts(group, outdir):
+    """Hand-made behaviours of Transport.tla (validated like any other): one call answered by a datagram of each wrong
+    length in turn, followed one tick later by the genuine reply - the broadcast path must skip the first and accept the
+    second, the directed paths must fail on the first."""
+    os.makedirs(outdir, exist_ok=True)
+    calls = {"G_bcast_eph": {"a": {"path": "bcast", "kind": "normal", "ctl": "S1"}, "b": {"path": "bcast", "kind": "status", "ctl": "S2"}},
+             "G_udp_eph": {"a": {"path": "udp", "kind": "normal", "ctl": "S1"}, "b": {"path": "udp", "kind": "status", "ctl": "S2"}},
+             "G_tcp_eph": {"a": {"path": "tcp", "kind": "normal", "ctl": "S1"}, "b": {"path": "tcp", "kind": "setaddr", "ctl": "S2"}}}[group]
+    hdr = {"a": "Cfg", "T": 3, "fixed": False, "group": group, "calls": calls}
+    bcast = calls["a"]["path"] == "bcast"
+    for i, n in enumerate(WRONG_LENGTHS):
+        c = "a" if (i % 2 == 0 or calls["b"]["kind"] == "setaddr") else "b"
+        plan = [["badlen", 0]] if calls["a"]["path"] == "tcp" else [["badlen", 0], ["valid", 1]]     # G_tcp_eph: MaxReplies = 1
+        lines = [hdr, {"a": "Enter", "c": c, "t": 0}, {"a": "Send", "c": c, "t": 0, "plan": plan, "lens": [n]}]
+        if bcast:
+            lines.append({"a": "Return", "c": c, "t": 1, "kind": "ok", "cls": "valid", "from": c, "rel": 1})
+        else:
+            lines.append({"a": "Return", "c": c, "t": 0, "kind": "fail", "cls": "badlen", "from": c, "rel": 0})
+        vflib.write_ndjson(os.path.join(outdir, "beh_%s_len%d.ndjson" % (group, n)), lines)
+
+
 def rig(group, scripts_dir, layouts, parts, tick, race=False, out=None, seed=None, port_extra=0):
     out = out or vflib.sub("rigl-" + group)
     exe = vflib.build_harness(race)
@@ -120,7 +144,7 @@ def first_unmatched(scn, consumed):
     return "end"
 
 
-def run_groups(v, groups, n, tick=50, race=False, parts_fixed=6, classify=None):
+def run_groups(v, groups, n, tick=50, race=False, parts_fixed=6, classify=None, lengths=False):
     """Generate, replay and validate the given groups. Rejected scenarios are re-run in isolation
     (3 times, 3x tick); they are reported only if they are rejected again at least once."""
     from .c05 import export
@@ -130,6 +154,10 @@ def run_groups(v, groups, n, tick=50, race=False, parts_fixed=6, classify=None):
     os.environ["VF_PROP"] = v.prop
     with ThreadPoolExecutor(max_workers=8) as ex:
         list(ex.map(lambda g: flood_scripts(g, sdir, n) if g.startswith("G_flood") else generate(g, n, vflib.seed() + 17, sdir), groups))
+    if lengths:
+        for g in groups:
+            if g in ("G_bcast_eph", "G_udp_eph", "G_tcp_eph"):
+                length_scripts(g, sdir)
     total = {"scenarios": 0, "accepted": 0, "rejected": 0, "calls": 0, "unreproduced": 0, "states": 0, "transitions": 0}
     drift = {"fd": 0, "goroutines": 0}
     samples = []
